@@ -22,7 +22,7 @@ SOLVERS = {
 
 class Obligation:
     def __init__(self, name, assumptions, goal, mode='bv', exact=True, timeout=60, solvers=None, extra_int=None,
-                 expect='unsat', meta=None, int_goal=None):
+                 expect='unsat', meta=None, int_goal=None, int_opts=None):
         """prove: assumptions => goal.  mode 'bv' or 'int'.
         expect='sat' turns this into a reachability witness (must be satisfiable)."""
         self.name = name
@@ -32,6 +32,7 @@ class Obligation:
         self.exact = exact
         self.timeout = timeout
         self.solvers = solvers
+        self.int_opts = int_opts or {}
         self.int_goal = int_goal  # callable(IntLower) -> z3 Bool goal (for goals over opaque products)
         self.extra_int = extra_int  # callable(IntLower) -> list of extra z3 constraints (lemmas/witnesses)
         self.expect = expect
@@ -90,6 +91,8 @@ class Obligation:
                 s.add(z3.BoolVal(False))
         else:
             L = tm.IntLower()
+            for k_, v_ in self.int_opts.items():
+                setattr(L, k_, v_)
             zs = []
             for a in self.assumptions:
                 if isinstance(a, T):
@@ -277,11 +280,19 @@ def discharge(obls, jobs=16, portfolio=('z3new',), workdir=None, log=None):
         cache[o.hash] = res
         return res
 
+    groups = {}
+    for o in obls:
+        groups.setdefault(o.hash, []).append(o)
+    reps = sorted((g[0] for g in groups.values()), key=lambda o: -o.timeout)
     with cf.ThreadPoolExecutor(max_workers=jobs) as ex:
-        futs = {ex.submit(work, o): o for o in obls}
+        futs = {ex.submit(work, o): o for o in reps}
         for f in cf.as_completed(futs):
-            o = futs[f]
-            o.result, o.model, o.time, o.msg, o.solver = f.result()
-            if log:
-                log(o)
+            rep = futs[f]
+            res = f.result()
+            for o in groups[rep.hash]:        # textually identical problems are solved once
+                o.result, o.model, o.time, o.msg, o.solver = res
+                if o is not rep:
+                    o.time = 0.0
+                if log:
+                    log(o)
     return obls
